@@ -48,7 +48,7 @@ def run(ctx, replay=None):
     base = (r.records.get("BASE") or [None])[0]
     if not cases or not base:
         raise Infra("single-config run exported no cases")
-    r = ctx.tlc("ctfe", "MCLogConfig", "LogConfigDraw.cfg", simulate=ctx.pick(4000, 60000), depth=2, count=False, timeout=1200)
+    r = ctx.tlc("ctfe", "MCLogConfig", "LogConfigDraw.cfg", simulate=ctx.pick(4000, 400000), depth=2, count=False, timeout=1200)
     seen = set(json.dumps(c["c"], sort_keys=True) for c in cases)
     drawn = 0
     for c in r.records.get("CASE", []):
@@ -77,7 +77,7 @@ def run(ctx, replay=None):
     # 3. behaviours of the instance machine: transition cover + random walks
     r = ctx.tlc("ctfe", "MCLogConfig", ctx.pick("LogConfigInstCover.cfg", "LogConfigInstCoverBig.cfg"), workers=1, count=False, timeout=1200)
     behs = r.records.get("BEH", [])
-    r = ctx.tlc("ctfe", "MCLogConfig", ctx.pick("LogConfigInstSim.cfg", "LogConfigInstSimBig.cfg"), simulate=ctx.pick(400, 4000), depth=30, count=False)
+    r = ctx.tlc("ctfe", "MCLogConfig", ctx.pick("LogConfigInstSim.cfg", "LogConfigInstSimBig.cfg"), simulate=ctx.pick(400, 20000), depth=30, count=False)
     behs += r.records.get("BEH", [])
     if not behs:
         raise Infra("no instance behaviour exported")
